@@ -8,7 +8,8 @@ META = dict(
     level='fault_enumeration', engine='E5 simulated network around the real four-counter module',
     technique='runtime monitoring with fault (delay) injection: seeded enumeration of network/worker schedules (held and '
               're-ordered FIFO channels, late-ready ranks, rendez-vous receives) over the real module code of 1..8 simulated '
-              'ranks; online safety oracle inside every termination callback, step-counted liveness oracle; ASan+UBSan',
+              'ranks, plus a threaded mode (worker + comm thread per rank against the module\'s own locks); online safety oracle inside every '
+              'termination callback, step-counted liveness oracle; ASan+UBSan',
     text='Every termination callback of every simulated rank is checked, at the moment it runs, against harness-side shadow '
          'counters (no rank busy, no application message sent and not completely received, at most one callback per rank); after '
          'the last work and delivery every rank must terminate within a fixed number of control deliveries. Schedules are '
@@ -27,6 +28,7 @@ FLOORS = (500, 100)
 def prebuild(ctx):
     for f in ('asan', 'rel'):
         ctx.harness('c11_fourcounter', f)
+        ctx.harness('c11_fourcounter_mt', f)
 
 
 def run(ctx):
@@ -37,31 +39,43 @@ def run(ctx):
                        'channels are FIFO per pair (or per pair and tag) as MPI guarantees; control may overtake application traffic only in the per-tag mode',
                        'an application message is outstanding from before outgoing_message_start until incoming_message_end and the registration of the work it creates',
                        'liveness bound: 64*N*(log2 N+1) control deliveries after global quiescence (three waves need about 6N)',
+                       'threaded mode: deadlock is declared only on a logically consistent snapshot (activity counter), a run without progress is judged by the stall rule',
                        'control messages left over after global termination are counted, not judged']
     exe = {f: ctx.harness('c11_fourcounter', f) for f in ('asan', 'rel')}
-    jobs = []
+    exe_mt = {f: ctx.harness('c11_fourcounter_mt', f) for f in ('asan', 'rel')}
+    jobs = []      # (mode, flavour, seed, schedules)
     if thorough:
-        for i in range(12):
-            jobs.append(('rel', ctx.seed * 100003 + i, 80000))
-        for i in range(6):
-            jobs.append(('asan', ctx.seed * 100003 + 500 + i, 15000))
+        for i in range(24):
+            jobs.append(('st', 'rel', ctx.seed * 100003 + i, 250000))
+        for i in range(8):
+            jobs.append(('st', 'asan', ctx.seed * 100003 + 500 + i, 60000))
+        mt = [('mt', 'rel', ctx.seed * 100003 + 900 + i, 1500) for i in range(4)] + [('mt', 'asan', ctx.seed * 100003 + 950 + i, 600) for i in range(2)]
     else:
         for i in range(4):
-            jobs.append(('rel', ctx.seed * 100003 + i, 5000))
+            jobs.append(('st', 'rel', ctx.seed * 100003 + i, 5000))
         for i in range(4):
-            jobs.append(('asan', ctx.seed * 100003 + 500 + i, 1200))
+            jobs.append(('st', 'asan', ctx.seed * 100003 + 500 + i, 1200))
+        mt = [('mt', 'rel', ctx.seed * 100003 + 900, 200), ('mt', 'asan', ctx.seed * 100003 + 950, 100)]
 
     def one(j):
-        flavour, seed, n = j
-        hf = os.path.join(ctx.work, 'hashes.%s.%d' % (flavour, seed))
-        r = ctx.run([exe[flavour], '--schedules', str(n), '--seed', str(seed), '--hashfile', hf, '--samples', '1'],
-                    timeout=3600 if thorough else 600, stall_s=120, tag='st-%s-%d' % (flavour, seed))
-        return j, hf, r
+        mode, flavour, seed, n = j
+        hf = os.path.join(ctx.work, 'hashes.%s.%s.%d' % (mode, flavour, seed))
+        if mode == 'st':
+            cmd = [exe[flavour], '--schedules', str(n), '--seed', str(seed), '--hashfile', hf, '--samples', '1']
+        else:
+            cmd = [exe_mt[flavour], '--schedules', str(n), '--seed', str(seed), '--hashfile', hf]
+        what = 'fourcounter simulation %s %s seed=%d schedules=%d' % j
+        if mode == 'st':
+            r = ctx.run(cmd, timeout=7200 if thorough else 600, stall_s=120, tag='%s-%s-%d' % (mode, flavour, seed))
+            st = ctx.absorb(r, what)
+        else:   # threads: a run that stops making progress is judged by the stall rule (twice = violation)
+            r, st = ctx.run_with_stall_rule(lambda: ctx.run(cmd, timeout=7200 if thorough else 900, stall_s=120, tag='%s-%s-%d' % (mode, flavour, seed)), what)
+        return j, hf, r, st, what
 
     hashes = set()
-    for j, hf, r in ctx.pmap(one, jobs, jobs=6):
-        what = 'fourcounter simulation %s seed=%d schedules=%d' % j
-        st = ctx.absorb(r, what)
+    # the 16-thread harness runs: two at a time, after the single-threaded ones (six at a time)
+    for j, hf, r, st, what in ctx.pmap(one, jobs, jobs=6) + ctx.pmap(one, mt, jobs=2):
+        mode = j[0]
         if st == 'stalled':
             ctx.inconclusive_case('stalled: ' + what)
             continue
@@ -76,8 +90,10 @@ def run(ctx):
             hashes.update(a)
         for k in ('events', 'waves', 'reactivations', 'ctl_delayed_not_ready', 'ctl_for_unregistered', 'app_parked', 'holds', 'rendezvous',
                   'ctl_msgs', 'app_msgs', 'forwards', 'recv_without_pending_action', 'tasks', 'callbacks', 'leftover_ctl',
-                  'fifo_per_pair', 'fifo_per_pair_and_tag', 'nontrivial'):
-            ctx.add_cov(k, s[k])
+                  'fifo_per_pair', 'fifo_per_pair_and_tag', 'nontrivial', 'app_received_while_busy'):
+            if k in s:
+                ctx.add_cov(k, s[k])
+        ctx.add_cov('schedules_single_threaded' if mode == 'st' else 'schedules_two_threads_per_rank', s['schedules'])
         ctx.max_cov('max_waves_in_one_schedule', s['max_waves'])
         ctx.max_cov('max_ctl_deliveries_after_quiescence', s['max_ctl_deliveries_after_quiescence'])
         for n, c in enumerate(s['byN'], 1):
@@ -87,5 +103,6 @@ def run(ctx):
                         'trace': smp['trace'][:900]})
     ctx.distinct.update(hashes)
     ctx.cov['flavours'] = ['asan', 'rel']
+    ctx.cov['modes'] = ['single-threaded seeded scheduler (replayable: harness --one <schedule_seed>)', 'two threads per simulated rank (worker + comm), not replayable']
     ctx.cov['trace_legend'] = ('G register, M monitor+preload, R ready, S startup(+tasks), T task, a>b application send, C send complete, '
                                'B recv start, E recv end(+tasks), P parked, D d<s u|f|T control delivery (up/down false/down true), H hold, Q quiescent, !r callback')
